@@ -202,6 +202,20 @@ class Check:
             for m in modules:
                 if not self.audit(m):
                     ok = False
+        if ok and self.tier == 'thorough' and not os.environ.get('LBZ_NO_LEANCHECKER'):
+            # independent re-check of the compiled property modules by the
+            # toolchain's stand-alone kernel checker (one module per call)
+            n = 0
+            for m in modules:
+                r = self._lake(['env', 'leanchecker', m], timeout=1800)
+                if r.returncode != 0:
+                    ok = False
+                    self.log('leanchecker REJECTS %s:\n%s' % (m, r.stdout[-1500:]))
+                    self.broken.append('leanchecker: ' + m)
+                else:
+                    n += 1
+            self.log('leanchecker re-checked %d module(s)' % n)
+            self.leanchecked = n
         return ok
 
     def props_modules(self, pid=None):
